@@ -187,6 +187,9 @@ def run_case(case, ctx):
         y = _try(lambda: Fxp(b, sy, wy, fy, raw=True))
         if x is None or y is None:
             return
+        if i % 5 == 1:
+            x = G.historied(Fxp, x, rng)[0]
+            y = G.historied(Fxp, y, rng)[0]
         for f in (lambda: x + y, lambda: x - y, lambda: x * y, lambda: fm.add(x, y), lambda: fm.sub(y, x), lambda: fm.mul(x, y),
                   lambda: np.add(x, y), lambda: np.subtract(x, y), lambda: np.multiply(y, x)):
             _try(f)
